@@ -226,6 +226,17 @@ func runMixedProp(c *fw.Ctx, prop string) {
 		}
 	case "C02":
 		o.Ent.MinAccepts = uint64(minInt(int(o.Ent.MinAccepts), 2))
+		if r.Chance(12) {
+			// a genesis document may hold a raised order of an address the bank refuses to pay (a blocked
+			// module account): no transaction can raise one, so whatever BeginBlock does with it once the
+			// signers accept (on this tree: halt) it must not create coins without completing the order
+			mod := []string{"fee_collector", "distribution", "bonded_tokens_pool", "not_bonded_tokens_pool", "stream", "enterprise"}[r.Intn(6)]
+			o.GenesisPOs = append(o.GenesisPOs, enttypes.EnterpriseUndPurchaseOrder{Id: o.PoStartID, Purchaser: lab.ModAddr(mod).String(),
+				Amount: sdk.NewInt64Coin(o.Ent.Denom, int64(r.Range(1, 1_000_000))), Status: enttypes.StatusRaised, RaiseTime: uint64(lab.StartTime.Unix())})
+			o.ExtraWhitelist = append(o.ExtraWhitelist, lab.ModAddr(mod).String())
+			o.PoStartID++
+			c.Count("genesis_orders_of_blocked_module_accounts", 1)
+		}
 	}
 	e := NewEnv(c, o)
 	defer e.L.Cleanup()
